@@ -11,10 +11,16 @@
    exactly the attribute tokens that stand immediately before the declaration's keyword in the token
    sequence of the source — all of them, in order; the token before the first one (if any) is not
    an attribute, so no attribute of a declaration is lost or handed to its neighbour.
-   "Nowhere else" and byte-exactness on the real output are decided by the check's oracle on the
-   emitted text. *)
+   AND "nowhere else" (C12_attributes_and_nowhere_else; Emit/AttrsOnly.v): for every source the model of
+   `generate` accepts, the emitted text is the text the emitter gives — for the same table — to the
+   same declarations WITHOUT their attributes, plus the attribute lines directly in front of the
+   terminal enum and directly in front of each nonterminal's definition: take the attributes away
+   and exactly those lines disappear, every other byte stays.  (The two template holes concerned occur
+   once each: checked by vm_compute on the template regenerated on this run.)
+   Byte-exactness and placement on the REAL output are decided by the check's oracle on the emitted text. *)
 From Coq Require Import List.
-From Kiki Require Import Base.Ord Base.Chars Data Lex.Model Lex.Spec Emit.Emit Emit.EmitProofs Front.Parse Front.AttrSource.
+From Kiki Require Import Base.Ord Base.Chars Data Lex.Model Lex.Spec Emit.Emit Emit.EmitProofs Front.Parse Front.AttrSource Build.Machine Emit.AttrsOnly Pipeline PipelineProofs.
+From Kiki Require Gen.Template.
 
 Theorem C12_attributes_verbatim_one_per_line : forall attrs,
   attributes_src attrs = concat (map (fun a => at_src a ++ nl) attrs).
@@ -43,6 +49,15 @@ Theorem C12_stored_attributes_are_the_tokens_before_the_keyword : forall src tok
       (pre = [] \/ exists pre' k, pre = pre' ++ [k] /\ forall a, k <> TOuterAttribute a).
 Proof. exact front_end_attributes_are_the_source_tokens. Qed.
 
+Theorem C12_attributes_and_nowhere_else : forall ho digest src text,
+  generate_model ho digest src = Ok text ->
+  exists v t pre mid post bodies,
+    front_end src = Ok v /\ length bodies = length (vf_nts v) /\
+    text = (pre ++ attributes_src (vt_attrs (vf_tenum v)) ++ mid ++ join (nl ++ nl) (zip_attrs (vf_nts v) bodies) ++ post)%list /\
+    table_to_rust (fu_unique (fuels_for 0 v)) Gen.Template.file_template Gen.Template.template_consts t (strip_v v) digest
+      = Ok (pre ++ mid ++ join (nl ++ nl) bodies ++ post)%list.
+Proof. exact generate_attributes_and_nowhere_else. Qed.
+Print Assumptions C12_attributes_and_nowhere_else.
 Print Assumptions C12_stored_attributes_are_the_tokens_before_the_keyword.
 Print Assumptions C12_attributes_verbatim_one_per_line.
 Print Assumptions C12_attribute_text_is_the_source_text.
